@@ -32,7 +32,7 @@ def scenario(rnd, i):
     drops = sorted(rnd.sample(range(3, ncmd - 3), rnd.choice([0, 1, 1, 2])))
     return {"seed": rnd.randrange(1 << 30), "start": rnd.choice([0, 1, 1000, 2 ** 31 + 5, 2 ** 40]), "commands": ncmd, "idles": idles,
             "idle_ms": rnd.choice([1300, 2300]), "drops": drops, "drop_skew": rnd.choice([0, 0, 5, 13]), "refuse": 0,
-            "frags": rnd.choice([[], [7], [64, 0], [1000]]), "quiet_ms": 2600, "budget_ms": 40000,
+            "frags": rnd.choice([[], [7], [64, 0], [1000]]), "quiet_ms": 3400, "budget_ms": 40000,
             "resume_at": (rnd.randrange(2, 8) if i % 3 == 2 else 0)}
 
 
